@@ -62,7 +62,8 @@ def Loaded (fs : FS) (subdirs : List String) (I : Inputs) : Prop :=
 otherwise): at least one probe; no probe without spikes (`np.max`, merge.py:147-148) and none with exactly one
 (`squeeze` + `np.concatenate`); no probe without channels (`array.max()`, merge.py:213, 226); the per-spike
 arrays have as many entries in total as there are spikes (merge.py:50); the templates of all probes have the
-waveform length of the first (merge.py:238) -/
+waveform length of the first (merge.py:238); the `pc_feature_ind` tables of all probes have one row width, and so
+have the `template_feature_ind` tables (`np.concatenate` in `_concat`, merge.py:30, 285: `ValueError` otherwise) -/
 def InDomain (subdirs : List String) (I : Inputs) : Prop :=
   subdirs ≠ [] ∧
   NonEmpty I.clusters ∧ NonEmpty I.templates ∧ NonEmpty I.maps ∧ NonEmpty I.positions ∧
@@ -71,7 +72,8 @@ def InDomain (subdirs : List String) (I : Inputs) : Prop :=
   I.amps.flatten.length = I.times.flatten.length ∧
   I.templates.flatten.length = I.times.flatten.length ∧
   I.clusters.flatten.length = I.times.flatten.length ∧
-  (I.tmpl.all fun t => t.all fun tm => tm.length == ((I.tmpl.headD []).headD []).length) = true
+  (I.tmpl.all fun t => t.all fun tm => tm.length == ((I.tmpl.headD []).headD []).length) = true ∧
+  sameWidth I.pcInd = true ∧ sameWidth I.tfInd = true
 
 /-- the output directory after a successful merge into an empty directory, file by file -/
 def expectedOut (subdirs : List String) (I : Inputs) (name : String) : Option File :=
